@@ -7,7 +7,7 @@ CONSTANTS
   MaxLog = 2
   MaxClient = 0
   MaxCrash = 0
-  MaxMsgs = 3
+  MaxMsgs = 2
   MaxSnap = 0
   MaxMember = 0
   MaxTimeout = 2
